@@ -22,6 +22,28 @@ class EigHooks(GslHooks):
         self.calls = []
         self.vectors = []
         self.vec_writes = {}
+        self.nonzero = set()  # component symbols that are non-zero in the input class under analysis
+        self.witness = None   # concrete values of the component symbols (a member of the class), for order comparisons
+        self.witness_used = 0
+
+    def decide_cmp(self, it, op, pa, pb, node):
+        # is a component of the input class zero?  (the class fixes which components vanish identically)
+        if isinstance(pa, Poly) and isinstance(pb, Poly) and pb.is_const() and pb.const_value() == 0 and op in ('==', '!='):
+            vs = pa.vars()
+            q = pa.clean()
+            if len(vs) == 1 and len(q.t) == 1 and list(vs)[0] in self.nonzero:
+                return 1 if op == '!=' else 0
+        # order comparisons between entries of the matrix: decided on the concrete instance of the class, if one is given
+        if self.witness is not None and isinstance(pa, Poly) and isinstance(pb, Poly):
+            try:
+                x, y = pa.subst(self.witness), pb.subst(self.witness)
+            except (ValueError, KeyError, ZeroDivisionError):
+                return NotImplemented
+            if x.is_const() and y.is_const():
+                x, y = x.const_value(), y.const_value()
+                self.witness_used += 1
+                return 1 if {'<': x < y, '>': x > y, '<=': x <= y, '>=': x >= y, '==': x == y, '!=': x != y}[op] else 0
+        return NotImplemented
 
     def external_call(self, it, name, node, args, this_cell):
         if name == 'gsl_vector_alloc':
@@ -114,6 +136,118 @@ def syntactic(db, rep, f, unit):
     return nbad
 
 
+def diagonal_witnesses(d, diag_slots):
+    """concrete values for the diagonal components: several members of the class whose diagonal entries come in
+    different orders (a small deterministic generator; ties in the last instance)"""
+    from mpmath import mpf
+    out = []
+    seed = 12345
+    for w in range(7):
+        m = {}
+        for k in diag_slots:
+            seed = (seed * 1103515245 + 12345) % (2 ** 31)
+            m[('v', 'a%d' % k)] = Poly.const(mpf(seed % 2001 - 1000) / 64)
+        out.append(m)
+    out.append({('v', 'a%d' % k): Poly.const(0 if k else 3) for k in diag_slots})  # multiple of the identity: all entries tie
+    return out
+
+
+def judge_path(db, rep, unit, f, d, klass, order, zero, content, S, wit, nbad, site):
+    """one abstract run of GetEigenSystem on an input class (optionally on a concrete member `wit` of it)"""
+    this, reg = make_suv('v', d, 'a', content)
+    hooks = EigHooks()
+    hooks.nonzero = set('a%d' % k for k in range(d * d) if k not in zero)
+    hooks.witness = wit
+    it = Interp(unit, hooks)
+    try:
+        res = it.call(f, this, [order])
+    except Thrown as t:
+        rep.fail('G.eig.path', site, unit.loc(t.node), 'a decomposition for dimension %d' % d, 'throw: %s' % t.what, f['name'])
+        return
+    except (Unsupported, IndexViolation) as e:
+        if nbad:
+            rep.notes.append('%s: path not interpretable (%s); closed-form sites already reported' % (site, str(e)[:120]))
+            return
+        if wit is None and klass == 'diagonal' and order and 'order is not decidable' in str(e):
+            rep.notes.append('%s: the path orders input-dependent entries itself; judged on the concrete instances of the class' % site)
+            return
+        raise
+    solver = [c for c in hooks.calls if c[0] == 'gsl_eigen_hermv']
+    sorts = [c for c in hooks.calls if c[0] == 'gsl_eigen_hermv_sort']
+    first = res.fields['first'].value if isinstance(res, Obj) and 'first' in res.fields else None
+    second = res.fields['second'].value if isinstance(res, Obj) and 'second' in res.fields else None
+    pf = first.fields['p'].value if isinstance(first, Obj) and 'p' in first.fields else None
+    ps = second.fields['p'].value if isinstance(second, Obj) and 'p' in second.fields else None
+    # the matrix of the input under analysis
+    mapping = {('v', 'a%d' % k): Poly.const(0) for k in zero}
+    Sin = {rc: CPoly(e.re.subst(mapping), e.im.subst(mapping)) for rc, e in S.entries.items()}
+    ok = True
+    why = ''
+    if len(solver) == 1:
+        _, entries, evals, evecs, ws, where = solver[0]
+        for (r, c), e in Sin.items():
+            if not entries[(r, c)].equals(e):
+                ok, why = False, 'matrix entry (%d,%d) passed to the solver is %s, not that of the represented matrix' % (r, c, entries[(r, c)])
+                break
+        if ok and not (pf == evals and ps == evecs):
+            ok, why = False, 'the objects returned are not the solver outputs'
+        if ok and hooks.vec_writes.get(evals.region.name):
+            ok, why = False, 'eigenvalues overwritten after the solver call'
+    elif len(solver) == 0:
+        # a path that builds the outputs itself: accepted only as the exact decomposition of a diagonal matrix
+        wr = hooks.vec_writes.get(pf.region.name, {}) if isinstance(pf, Ptr) and pf.region is not None else {}
+        try:
+            V = matrix_of(ps) if ps is not None else None
+        except Unsupported:
+            V = None
+        if klass != 'diagonal' and V is not None and all(
+                V.entries.get((r, c)) is not None and V.entries[(r, c)].equals(CPoly(1 if r == c else 0, 0)) for r in range(d) for c in range(d)):
+            rep.fail('G.eig.path', site, unit.loc(f), 'outputs = a valid decomposition of the represented matrix',
+                     'a matrix with non-zero off-diagonal entries (%s) bypasses the eigensolver and is given the unit vectors as eigenvectors' % klass, f['name'])
+            return
+        if klass != 'diagonal' or V is None or sorted(wr) != list(range(d)):
+            rep.break_('%s: the outputs are produced without the Hermitian eigensolver by a path this analysis cannot validate' % site)
+            return
+        cols = {}
+        for i in range(d):
+            ones = [r for r in range(d) if V.entries.get((r, i)) is not None and V.entries[(r, i)].equals(CPoly(1, 0))]
+            zeros = [r for r in range(d) if V.entries.get((r, i)) is not None and V.entries[(r, i)].is_zero()]
+            if len(ones) != 1 or len(zeros) != d - 1:
+                ok, why = False, 'eigenvector %d of a diagonal matrix is not a unit vector' % i
+                break
+            cols[i] = ones[0]
+            if not wr[i].equals(Sin[(ones[0], ones[0])].re):
+                ok, why = False, 'eigenvalue %d is %s, not the diagonal entry %d of the matrix' % (i, wr[i], ones[0])
+                break
+        if ok and sorted(cols.values()) != list(range(d)):
+            ok, why = False, 'eigenvectors are not a permutation of the unit vectors'
+        evals, evecs = pf, ps
+    else:
+        ok, why = False, 'the Hermitian eigensolver is called %d times on this path' % len(solver)
+    if ok and order and len(solver) == 0 and wit is not None and not sorts:
+        # the path ordered the entries itself: on this concrete member of the class the eigenvalues must ascend
+        nums = []
+        for i in range(d):
+            x = wr[i].subst(wit)
+            nums.append(x.const_value() if x.is_const() else None)
+        if any(x is None for x in nums) or any(nums[i] > nums[i + 1] for i in range(d - 1)):
+            ok, why = False, 'ordering requested: on the instance with diagonal %s the eigenvalues come out as %s' % (
+                [str(Sin[(r, r)].re.subst(wit)) for r in range(d)], [str(x) for x in nums])
+    elif ok and order and not (len(sorts) == 1 and sorts[0][1] == evals and sorts[0][2] == evecs and sorts[0][3] == 0):
+        ok, why = False, 'ordering requested but the outputs are not sorted ascending by value on this path (sort calls: %d)' % len(sorts)
+    if ok and not order and sorts:
+        ok, why = False, 'sorted although ordering was not requested'
+    if ok and hooks.divisions:
+        ok, why = False, 'input-dependent division at %s' % unit.loc(hooks.divisions[0][0])
+    if ok:
+        rep.ok('G.eig.path')
+        if d == 3 and klass == 'dense':
+            rep.sample('G.eig.path', 'd=3 order=%d: hermv(S_3(c)) -> (eigenvalues, eigenvectors)%s' % (order, ', sorted ascending' if order else ''))
+    else:
+        rep.fail('G.eig.path', site, unit.loc(f), 'outputs = a valid decomposition of the represented matrix (Hermitian eigensolver, or exact for a diagonal matrix); sorted ascending iff requested',
+                 why, f['name'])
+
+
 def run(db, rep, tier):
     rep.trusted += ['clang 14 AST of /repo sources', 'sqdump extractor + abstract interpreter',
                     'gsl_eigen_hermv / gsl_eigen_hermv_sort (documented semantics: eigen-decomposition of a Hermitian matrix; sort by value ascending)',
@@ -128,86 +262,25 @@ def run(db, rep, tier):
         S, _ = basis.extract_S(db, d, 'a')
         lam = basis.basis(db, d)
         diag_slots = [k for k in range(d * d) if all(r == c or lam[k][r][c].is_zero() for r in range(d) for c in range(d))]
-        for klass in ('dense', 'diagonal'):
+        re_slots = [i * d + j for i in range(d) for j in range(i + 1, d)]  # real parts of the off-diagonal entries
+        im_slots = [j * d + i for i in range(d) for j in range(i + 1, d)]  # their imaginary parts
+        for klass in ('dense', 'diagonal', 'imaginary off-diagonal only', 'real off-diagonal only'):
             for order in (0, 1):
                 n += 1
                 site = 'GetEigenSystem/%d/%s/order=%d' % (d, klass, order)
-                content = None
+                zero = set()
                 if klass == 'diagonal':
-                    content = lambda k, ds=diag_slots: Poly.var('a%d' % k) if k in ds else Poly.const(0)
-                this, reg = make_suv('v', d, 'a', content)
-                hooks = EigHooks()
-                it = Interp(unit, hooks)
-                try:
-                    res = it.call(f, this, [order])
-                except Thrown as t:
-                    rep.fail('G.eig.path', site, unit.loc(t.node), 'a decomposition for dimension %d' % d, 'throw: %s' % t.what, f['name'])
-                    continue
-                except (Unsupported, IndexViolation) as e:
-                    if nbad:
-                        rep.notes.append('%s: path not interpretable (%s); closed-form sites already reported' % (site, str(e)[:120]))
-                        continue
-                    raise
-                solver = [c for c in hooks.calls if c[0] == 'gsl_eigen_hermv']
-                sorts = [c for c in hooks.calls if c[0] == 'gsl_eigen_hermv_sort']
-                first = res.fields['first'].value if isinstance(res, Obj) and 'first' in res.fields else None
-                second = res.fields['second'].value if isinstance(res, Obj) and 'second' in res.fields else None
-                pf = first.fields['p'].value if isinstance(first, Obj) and 'p' in first.fields else None
-                ps = second.fields['p'].value if isinstance(second, Obj) and 'p' in second.fields else None
-                # the matrix of the input under analysis
-                mapping = {}
-                if klass == 'diagonal':
-                    mapping = {('v', 'a%d' % k): Poly.const(0) for k in range(d * d) if k not in diag_slots}
-                Sin = {rc: CPoly(e.re.subst(mapping), e.im.subst(mapping)) for rc, e in S.entries.items()}
-                ok = True
-                why = ''
-                if len(solver) == 1:
-                    _, entries, evals, evecs, ws, where = solver[0]
-                    for (r, c), e in Sin.items():
-                        if not entries[(r, c)].equals(e):
-                            ok, why = False, 'matrix entry (%d,%d) passed to the solver is %s, not that of the represented matrix' % (r, c, entries[(r, c)])
-                            break
-                    if ok and not (pf == evals and ps == evecs):
-                        ok, why = False, 'the objects returned are not the solver outputs'
-                    if ok and hooks.vec_writes.get(evals.region.name):
-                        ok, why = False, 'eigenvalues overwritten after the solver call'
-                elif len(solver) == 0:
-                    # a path that builds the outputs itself: accepted only as the exact decomposition of a diagonal matrix
-                    wr = hooks.vec_writes.get(pf.region.name, {}) if isinstance(pf, Ptr) and pf.region is not None else {}
-                    try:
-                        V = matrix_of(ps) if ps is not None else None
-                    except Unsupported:
-                        V = None
-                    if klass != 'diagonal' or V is None or sorted(wr) != list(range(d)):
-                        rep.break_('%s: the outputs are produced without the Hermitian eigensolver by a path this analysis cannot validate' % site)
-                        continue
-                    cols = {}
-                    for i in range(d):
-                        ones = [r for r in range(d) if V.entries.get((r, i)) is not None and V.entries[(r, i)].equals(CPoly(1, 0))]
-                        zeros = [r for r in range(d) if V.entries.get((r, i)) is not None and V.entries[(r, i)].is_zero()]
-                        if len(ones) != 1 or len(zeros) != d - 1:
-                            ok, why = False, 'eigenvector %d of a diagonal matrix is not a unit vector' % i
-                            break
-                        cols[i] = ones[0]
-                        if not wr[i].equals(Sin[(ones[0], ones[0])].re):
-                            ok, why = False, 'eigenvalue %d is %s, not the diagonal entry %d of the matrix' % (i, wr[i], ones[0])
-                            break
-                    if ok and sorted(cols.values()) != list(range(d)):
-                        ok, why = False, 'eigenvectors are not a permutation of the unit vectors'
-                    evals, evecs = pf, ps
-                else:
-                    ok, why = False, 'the Hermitian eigensolver is called %d times on this path' % len(solver)
-                if ok and order and not (len(sorts) == 1 and sorts[0][1] == evals and sorts[0][2] == evecs and sorts[0][3] == 0):
-                    ok, why = False, 'ordering requested but the outputs are not sorted ascending by value on this path (sort calls: %d)' % len(sorts)
-                if ok and not order and sorts:
-                    ok, why = False, 'sorted although ordering was not requested'
-                if ok and hooks.divisions:
-                    ok, why = False, 'input-dependent division at %s' % unit.loc(hooks.divisions[0][0])
-                if ok:
-                    rep.ok('G.eig.path')
-                    if d == 3 and klass == 'dense':
-                        rep.sample('G.eig.path', 'd=3 order=%d: hermv(S_3(c)) -> (eigenvalues, eigenvectors)%s' % (order, ', sorted ascending' if order else ''))
-                else:
-                    rep.fail('G.eig.path', site, unit.loc(f), 'outputs = a valid decomposition of the represented matrix (Hermitian eigensolver, or exact for a diagonal matrix); sorted ascending iff requested',
-                             why, f['name'])
-    rep.floor('G.eig.path', n, 20)
+                    zero = set(range(d * d)) - set(diag_slots)
+                elif klass == 'imaginary off-diagonal only':
+                    zero = set(re_slots)
+                elif klass == 'real off-diagonal only':
+                    zero = set(im_slots)
+                content = lambda k, z=zero: Poly.const(0) if k in z else Poly.var('a%d' % k)
+                # a path that orders the entries of a diagonal matrix itself compares input-dependent numbers: it is
+                # run on several concrete members of the class (different orderings of the diagonal, ties included)
+                witnesses = [None]
+                if klass == 'diagonal' and order:
+                    witnesses = [None] + diagonal_witnesses(d, diag_slots)
+                for wit in witnesses:
+                    judge_path(db, rep, unit, f, d, klass, order, zero, content, S, wit, nbad, site + ('' if wit is None else '/instance%d' % witnesses.index(wit)))
+    rep.floor('G.eig.path', n, 40)
